@@ -224,7 +224,8 @@ func ruleCtxAge(r *Report, fns []string) {
 		if fn == nil {
 			continue
 		}
-		calls := CallsIn(fn, Keys("sstables.NewMergeIteratorContext"))
+		// (the calls themselves, also when a newly extracted helper of fn makes them)
+		calls := realSites(fn, Keys("sstables.NewMergeIteratorContext"))
 		key := rule + "/" + k
 		if len(calls) == 0 {
 			r.Missing(rule, key, "no NewMergeIteratorContext call")
@@ -235,15 +236,28 @@ func ruleCtxAge(r *Report, fns []string) {
 			// a0 must be used as the index of an IndexAddr on the age-ordered slice inside this function
 			ok := false
 			what := ""
-			eachInstr(fn, func(s Site) {
+			g := c.Fn
+			eachInstr(g, func(s Site) {
 				ia, is := s.Instr.(*ssa.IndexAddr)
 				if !is || ia.Index != a0 {
 					return
 				}
 				if _, f, _, isF := loadOfField(ia.X); isF && f == "readers" {
 					ok, what = true, "s.readers[i]"
-				} else if sortedSlice(fn, ia.X) {
+				} else if sortedSlice(g, ia.X) {
 					ok, what = true, "sorted paths[i]"
+				} else if po := paramOrigin(ia.X); po != nil && g != fn {
+					// the helper's parameter: what fn hands it must be the sorted slice
+					for pi, q := range g.Params {
+						if q != po {
+							continue
+						}
+						eachInstr(fn, func(t Site) {
+							if cc, isC := t.Instr.(*ssa.Call); isC && cc.Call.StaticCallee() == g && pi < len(cc.Call.Args) && sortedSlice(fn, cc.Call.Args[pi]) {
+								ok, what = true, "sorted paths[i] (handed to "+FuncKey(g)+")"
+							}
+						})
+					}
 				}
 			})
 			if ok {
@@ -645,12 +659,75 @@ func ruleValuePassthrough(r *Report) {
 			}
 		})
 		key := rule + "/" + k
+		bad := ""
+		// the lookup handed to a visiting helper as a function literal: the value is obtained (and must not be looked at)
+		// in the literal, and reaches this function through the variable the literal assigns
+		for _, g := range fn.AnonFuncs {
+			var gvals []ssa.Value
+			eachInstr(g, func(s Site) {
+				c, ok := s.Instr.(*ssa.Call)
+				if !ok {
+					return
+				}
+				tup, isT := c.Type().(*types.Tuple)
+				if !isT {
+					return
+				}
+				for _, rf := range *c.Referrers() {
+					if ex, ok := rf.(*ssa.Extract); ok && !(tup.Len() == 3 && ex.Index == 0) {
+						if sl, isS := ex.Type().Underlying().(*types.Slice); isS && types.Identical(sl.Elem(), types.Typ[types.Byte]) {
+							gvals = append(gvals, ex)
+						}
+					}
+				}
+			})
+			if len(gvals) == 0 {
+				continue
+			}
+			tg := taintClosure(g, gvals, nil)
+			for _, b := range liveBlocks(g) {
+				if v, _, _, _, _, ok := nilTest2(b); ok && tg[v] {
+					bad = r.P.Pos(b.Instrs[len(b.Instrs)-1].(*ssa.If).Cond.Pos())
+				}
+			}
+			eachInstr(g, func(s Site) {
+				if c, ok := s.Instr.(*ssa.Call); ok {
+					if bi, ok := c.Call.Value.(*ssa.Builtin); ok && bi.Name() == "len" && tg[c.Call.Args[0]] {
+						bad = r.P.Pos(c.Pos())
+					}
+				}
+				st, isS := s.Instr.(*ssa.Store)
+				if !isS || !tg[st.Val] {
+					return
+				}
+				fv, isFV := st.Addr.(*ssa.FreeVar)
+				if !isFV {
+					return
+				}
+				eachInstr(fn, func(t Site) {
+					mc, isMC := t.Instr.(*ssa.MakeClosure)
+					if !isMC || mc.Fn != ssa.Value(g) {
+						return
+					}
+					for i, b := range mc.Bindings {
+						if i < len(g.FreeVars) && g.FreeVars[i] == fv {
+							if rr := b.Referrers(); rr != nil {
+								for _, u := range *rr {
+									if ld, isL := u.(*ssa.UnOp); isL && ld.Op == token.MUL && ld.Block() != nil && ld.Parent() == fn {
+										vals = append(vals, ld)
+									}
+								}
+							}
+						}
+					}
+				})
+			})
+		}
 		if len(vals) == 0 {
 			r.Missing(rule, key, "no value-producing call found")
 			continue
 		}
 		t := taintClosure(fn, vals, nil)
-		bad := ""
 		for _, b := range liveBlocks(fn) {
 			if v, _, _, _, _, ok := nilTest2(b); ok && t[v] {
 				bad = r.P.Pos(b.Instrs[len(b.Instrs)-1].(*ssa.If).Cond.Pos())
